@@ -70,6 +70,11 @@ def run_config(cfg, strategy=None, want_choices=False):
                 ev(ev='attach', u=name, t=t, inited=bool(getattr(o, 'initModuleDone', False)))
 
         def __init__(self, *a, **k):
+            if fail == 'create':
+                raise RuntimeError('scripted failure in the constructor')
+            if fail == 'createcfg':
+                from frappy.errors import ConfigError
+                raise ConfigError('scripted configuration error in the constructor')
             Module.__init__(self, *a, **k)
             ev(ev='create', m=name)
 
@@ -77,14 +82,16 @@ def run_config(cfg, strategy=None, want_choices=False):
             ev(ev='early', m=name)
             if fail == 'early':
                 raise ValueError('scripted failure in earlyInit')
-            Module.earlyInit(self)
+            if fail != 'nosuper_early':
+                Module.earlyInit(self)
 
         def initModule(self):
             if acc == 'init':
                 look(self)
             if fail == 'init':
                 raise ValueError('scripted failure in initModule')
-            Module.initModule(self)
+            if fail != 'nosuper_init':
+                Module.initModule(self)
             ev(ev='init', m=name)
 
         def startModule(self, start_events):
